@@ -178,6 +178,7 @@ func (e *Exec) callValueNoEvent(c *ast.CallExpr, fv Val, args []Val, resT types.
 		// call through an opaque function value
 		e.warn("call through opaque function value %s", exprText(c.Fun))
 		e.havocBoxed()
+		e.invokeEscaped()
 		return e.havocResult("dyn", resT)
 	}
 	if f.Lit != nil {
@@ -199,10 +200,18 @@ func (e *Exec) callValueNoEvent(c *ast.CallExpr, fv Val, args []Val, resT types.
 	}
 	// contract of an in-module function
 	if ct := e.g.contractFor(fn); ct != nil && !e.forceInline(fn.Name()) {
-		return e.applyContract(fn, ct, f, args, resT, c)
+		r := e.applyContract(fn, ct, f, args, resT, c)
+		if !ct.Pure {
+			e.invokeEscaped()
+		}
+		return r
 	}
 	if es := e.g.lookupExtern(fn, f.RecvT); es != nil {
-		return e.applyExtern(fn, es, f, args, resT, c)
+		r := e.applyExtern(fn, es, f, args, resT, c)
+		if !es.Pure {
+			e.invokeEscaped()
+		}
+		return r
 	}
 	// inline a function whose source we have
 	if fi := e.g.funcs[fn.Origin()]; fi != nil && e.mayInline(fn, fi) {
@@ -224,6 +233,7 @@ func (e *Exec) callValueNoEvent(c *ast.CallExpr, fv Val, args []Val, resT types.
 		e.warn("unspecified external function %s: results havoc'd, no heap effect assumed (A-EXT)", key)
 	}
 	e.havocBoxed()
+	e.invokeEscaped()
 	return e.havocResult(fn.Name(), resT)
 }
 
@@ -283,8 +293,9 @@ func (e *Exec) mayInline(fn *types.Func, fi *funcInfo) bool {
 	if e.forceInline(fn.Name()) {
 		return true
 	}
-	// same module only by default
-	if fn.Pkg() == nil || !strings.HasPrefix(fn.Pkg().Path(), modPath) {
+	// by default only functions of the package under verification are inlined; everything else needs a
+	// contract, an extern spec, or an explicit 'inline' clause (otherwise: results havoc'd, A-EXT)
+	if fn.Pkg() == nil || e.fi == nil || fn.Pkg() != e.fi.pkg.Types {
 		return false
 	}
 	return true
